@@ -1,6 +1,6 @@
 (* Proto.v — M-Sys: the message / spawn / await protocol between the Executor's scheduling state,
    the Worker and the Environment (quiver-core/src/executor.rs, quiver-environment/src/worker.rs,
-   environment.rs), as the code is (the stale wake-up F71, the discarded result F72/F8 included).
+   environment.rs), as the code is (the stale wake-up F71 and the discarded result F72 included).
 
    What is abstracted: the BEHAVIOUR of a process. One `Executor::step` runs one time slice of the
    process at the head of the run queue; what that slice did is an input of the step (`did`): the
@@ -520,8 +520,10 @@ Definition handle_event (nw : nat) (ev : event) (st : env * list node) : result 
       match sender with
       | None => Good (e, ns)
       | Some w =>
-        (* `responses.insert(worker_id, results)` REPLACES the worker's earlier answer (finding F8) *)
-        let resp := aset w results (pa_resp pa) in
+        (* `responses.entry(worker_id).or_default().extend(results)`: a worker's later answer is merged
+           into its earlier one (since the repair of F8; before, it replaced it) *)
+        let old := match alookup w (pa_resp pa) with Some l => l | None => [] end in
+        let resp := aset w (fold_left (fun a x => aset (fst x) (snd x) a) results old) (pa_resp pa) in
         let expected := sremove w (pa_expected pa) in
         match expected with
         | [] =>
